@@ -186,10 +186,13 @@ impl ContextualLookupBuilder<SubstitutionLookup> {
     ) -> LookupId {
         let (lookup, id) = self.find_or_create_anon_lookup(
             |existing| match existing {
+                // a single replacement glyph stands for every glyph of a target class;
+                // pair them the way they are inserted below, or only the first target
+                // glyph is checked against the mappings the lookup already holds
                 SubstitutionLookup::Single(subtables) => subtables.subtables.iter().all(|subt| {
                     target
                         .iter()
-                        .zip(replacement.iter())
+                        .zip(replacement.clone().into_iter_for_target())
                         .all(|(a, b)| subt.can_add(a, b))
                 }),
                 _ => false,
